@@ -417,6 +417,20 @@ fn main() {
         }
         t
     });
+    // ---- S9: near-equal pairs: a value-equal pair with ONE word or ONE decimal digit of the longer coefficient
+    // changed, at every word index (to two words above the top) and every digit position
+    let mut nb: Vec<BigInt> = [1i64, 5, 7, 12, 99, 1000].iter().map(|v| BigInt::from(*v)).collect();
+    nb.extend([(BigInt::one() << 32usize) + 1, (BigInt::one() << 64usize) - 1, (BigInt::one() << 64usize) + 10, pow10(19) + 7, big(&filler_digits(run.seed(), 40, 40))]);
+    let ne = near_equal_pairs(tier.pick(24, 60), &nb);
+    run.bound("S9_near_equal_pairs", ne.len());
+    run.par("S9 near-equal pairs (one word / one digit changed)", (ne.len() + 255) / 256, |blk| {
+        let mut t = Tally::default();
+        for (a, b) in ne[blk * 256..((blk + 1) * 256).min(ne.len())].iter() {
+            t.nontrivial += 2;
+            full_check(&run, a, b, &mut t);
+        }
+        t
+    });
     // ---- S7: tightness of the bit-length pre-test ----------------------------------------------------
     // the scaled comparison first compares bits(a) with bits(b) + floor(g*log2 10); that estimate is tight
     // exactly when b is a power of two and a = b*10^g: every gap up to a bound, then the gaps up to 100000
